@@ -75,6 +75,21 @@ func DerivesFrom(v ssa.Value, pred func(ssa.Value) bool) bool {
 						return true
 					}
 				}
+				// element / field stores into a local array or struct (varargs, literals)
+				if ia, ok := r.(*ssa.IndexAddr); ok {
+					for _, r2 := range *ia.Referrers() {
+						if st, ok := r2.(*ssa.Store); ok && st.Addr == ssa.Value(ia) && rec(st.Val, d+1) {
+							return true
+						}
+					}
+				}
+				if fa, ok := r.(*ssa.FieldAddr); ok {
+					for _, r2 := range *fa.Referrers() {
+						if st, ok := r2.(*ssa.Store); ok && st.Addr == ssa.Value(fa) && rec(st.Val, d+1) {
+							return true
+						}
+					}
+				}
 			}
 		}
 		return false
